@@ -54,7 +54,7 @@ def _accessor_case(rep, rng, ns, S, N, kind):
             tag = {"nsamples": ns, "nspecies": S, "ncells": N, "space": kind, "grid": dims}
             if (tr.nsamples(), tr.nspecies(), tr.ncells()) != (ns, S, N):
                 rep.violation("accessors", "traj:shape", tag)
-                continue
+                return
             bad = None
             for n in range(ns):
                 whole = tr.get_state(None, n)
